@@ -115,6 +115,28 @@ def main(argv):
                                 ctx.violation("winner is not the (score, name) lexicographic maximum", dict(case, want=want), tags=["prefix-names"])
                         lines.append(f"getnode seed=0 hash={mode} key={cps(key)} nodes={';'.join(cps(x) for x in nodes)}")
                         metas.append((case, "ok " + cps(w)))
+    # 1c. the rule is "highest score", for whatever hash function the ring was given (the constructor takes any `hash_function(key, seed)`): scores wider
+    #     than 32 bits (a 64-bit hash, scores that differ only in their upper half), and rings used directly with node identifiers that are not
+    #     non-empty strings (shards numbered from 0, the empty name).  No forced ties here: distinct scores, the highest wins.
+    wide = {"wide64": lambda x, s_: (ref_murmur(x, s_) << 32) | ref_murmur(x[::-1], s_ ^ 1), "upper-half-only": lambda x, s_: ref_murmur(x, s_) << 32,
+            "wide-small-low": lambda x, s_: (ref_murmur(x, s_) << 40) + 7}
+    ident_sets = [list(range(n_)) for n_ in (2, 3, 4, 5)] + [["", "a", "b"], ["b", "", "a"], [0, "a", ""], ["x", 0, 1]]
+    for hname, hf_ in list(wide.items()) + [("murmur", None)]:
+        for nodes in ([names[:k_] for k_ in (2, 3, 5)] if hf_ else []) + ident_sets:
+            for order in (list(nodes), list(reversed(nodes)), nodes[1:] + nodes[:1]):
+                for key in keys[:40:3] + ["", "0"]:
+                    rh = RendezvousHash(nodes=list(order), hash_function=hf_) if hf_ else RendezvousHash(nodes=list(order))
+                    w = rh.get_node(key)
+                    f_ = hf_ or ref_murmur
+                    scores = {repr(n_): f_(f"{n_}-{key}", 0) for n_ in order}
+                    if len(set(scores.values())) != len(scores):
+                        continue                          # a tie: the name rule of sections 1 / 1b applies, not this one
+                    want = max(order, key=lambda n_: f_(f"{n_}-{key}", 0))
+                    ctx.case(("rule-any-score", hname, repr(order), key))
+                    ctx.count("wide scores / unusual node identifiers")
+                    if w != want or type(w) is not type(want):
+                        ctx.violation("winner is not the node with the highest score", {"hash": hname, "nodes": repr(order), "key": key, "winner": repr(w), "want": repr(want),
+                                                                                         "scores": {k_: v_ for k_, v_ in list(scores.items())[:5]}}, tags=["any-score"])
     # 2. histories: same resulting set => same placement; remove/add disruption
     for mode in hfs:
         for _ in range(400 if ctx.thorough else 80):
